@@ -17,7 +17,8 @@ def mux_cases(tier):
         for extra in (0, 3):
             cs.append({'CFG': cfg, 'MODE': 1, 'N': 0, 'EXTRA': extra, 'NBUF': 1})
         for nbuf in range(0, 5):
-            cs.append({'CFG': cfg, 'MODE': 2, 'N': 0, 'EXTRA': 0, 'NBUF': nbuf})
+            it = min(nbuf, 3) + 2       # the poll loop runs once per transmitted frame (<= 3 channels, <= NBUF buffers) plus a last, empty round
+            cs.append({'CFG': cfg, 'MODE': 2, 'N': 0, 'EXTRA': 0, 'NBUF': nbuf, '_unwindset': 'vf_mux_poll_all.0:%d,vf_mux_poll_all.1:%d' % (it, it)})
     return cs
 
 
